@@ -475,7 +475,7 @@ func term(t *testing.T, id uint64, h History, outs []string, final [][2]uint64) 
 
 func TestC18(t *testing.T) {
 	col := NewCollector("C18", "Check.C18",
-		"histories of 5-60 ops (block events, head events, lookups with scripted fetch outcome, groups of 2-6 overlapping lookups, cleans) over 1-8 roots; non-trivial = contains both a successful miss and a hit (sequential lookups); distinct by full history text")
+		"histories of 5-60 ops (block events, head events, lookups with scripted fetch outcome, groups of 2-6 overlapping lookups, cleans with the clock anywhere in its epoch) over 1-8 roots, and long chains (one root or more per slot over more than 64 epochs, the map outgrowing 64*spe entries, then lookups of the window's oldest roots with the node failing); non-trivial = contains both a successful miss and a hit (sequential lookups); distinct by full history text")
 	// the long-chain histories cost the checker seconds each: smaller shards, checked in parallel
 	col.ShardSize = 200
 	n := EnvInt("VERIF_N", 1000)
